@@ -8,6 +8,7 @@ request:  `names	hist	<op>;<op>;…`   with
          | `s,<i>,<stmt>`                        statement on connection i
   stmt  := `cd,<d>,<ifx>` | `dd,<d>` | `ud,<d>` | `ub,<x>` | `sc,<ifx>,<sref>` | `sd,<ifx>,<sref>` | `su,<sref>`
          | `w,<is|cs|cl|uf|du|mg>,<target tref>,<source tref>` (two-table statements)
+         | `ii,<v>,<tref>` | `is,<tref>` (INSERT / SELECT through IDENTIFIER('…')) | `wp,<v>,<tref>` (write_pandas)
          | `tc,<t|v>,<v>,<ifx>,<tref>` | `td,<t|v>,<ifx>,<tref>` | `ti,<v>,<tref>` | `ts,<tref>` | `j,<tref>,<tref>` | `x`
   sref  := `<s>` | `<d>.<s>`        tref := `<n>` | `<s>.<n>` | `<d>.<s>.<n>`      (names are numbers)
 reply:    `steps=<step>;<step>;…	final=<catalog>` one step per op:
@@ -51,6 +52,9 @@ def pStmt : List String → Option Stmt
   | ["ti", v, r] => do let v ← pNat v; let r ← pTRef r; pure (.tab (.insert v) r)
   | ["ts", r] => (pTRef r).map (.tab .select)
   | ["j", a, b] => do let a ← pTRef a; let b ← pTRef b; pure (.join a b)
+  | ["ii", v, r] => do let v ← pNat v; let r ← pTRef r; pure (.tabI (.insert v) r)
+  | ["is", r] => (pTRef r).map (.tabI .select)
+  | ["wp", v, r] => do let v ← pNat v; let r ← pTRef r; pure (.writePandas v r)
   | ["w", op, a, b] => do
     let op ← (match op with
       | "is" => some COp.insertSelect | "cs" => some .ctas | "cl" => some .clone
